@@ -516,6 +516,14 @@ def _plumbing(chk, repo):
     forwarded(chk, "FWD-17", play, one(play, "create_show_config"), csc, same=CFG_NAMES, mapping={"name": {"self.name"}}, require_all=True)
     forwarded(chk, "FWD-17", play, one(play, "play_with_config"), pwc, same=["show_config", "start_time", "start_running", "start_callback", "start_step"],
               mapping={"stop_callback": {"callback"}}, require_all=True)
+    # the pool pass-throughs (a show picked from a pool of variants) hand every parameter on under its own name
+    for pool_m, target in (("ShowPool.play_with_config", pwc), ("ShowPool.play", play)):
+        pm = repo.func(SH, pool_m)
+        chk.analysed(pm)
+        pc = [c for c in pm.calls() if call_attr(c) == target.name and src(c.func.value) == "self.asset"]
+        chk.need(len(pc) == 1, "FWD-17", "%s passes the call on to the picked show" % pool_m, pm)
+        names_ = [a.arg for a in pm.node.args.args[1:]] + [a.arg for a in pm.node.args.kwonlyargs]
+        forwarded(chk, "FWD-17", pm, pc[0], target, same=names_, require_all=True)
     rs = [c for c in pwc.calls() if isinstance(c.func, ast.Name) and c.func.id == "RunningShow"]
     chk.need(len(rs) == 1, "FWD-17", "play_with_config creates the RunningShow", pwc)
     forwarded(chk, "FWD-17", pwc, rs[0], rinit, same=["machine", "start_time", "start_running", "start_callback", "show_config"],
@@ -754,6 +762,7 @@ def battery():
         M("advance mapped to step_back", "mpf/config_players/show_player.py", "            'advance': self._advance,", "            'advance': self._step_back,", "TABLE-17"),
         M("show player raises the priority inside the shared settings", "mpf/config_players/show_player.py", "                show_settings = dict(show_settings)\n", "", "MUT-17"),
         M("explicit sync_ms 0 replaced by the machine default", "mpf/core/show_controller.py", "        if sync_ms is None:\n            sync_ms = self.machine.config['mpf']['default_show_sync_ms']", "        if not sync_ms:\n            sync_ms = self.machine.config['mpf']['default_show_sync_ms']", "FWD-17"),
+        M("show pool swaps start_step and start_running", SH, "        return self.asset.play_with_config(show_config, start_time, start_running, start_callback, stop_callback,\n                                           start_step)", "        return self.asset.play_with_config(show_config, start_time, start_step, start_callback, stop_callback,\n                                           start_running)", "FWD-17"),
     ]
 
 
